@@ -46,7 +46,7 @@ func c06(c *Ctx) {
 		}
 		if outer.Name == "(*SimpleProcessor).OnEmit" {
 			_, base := fieldOf(info, recv)
-			okL, whyL := le.Require(s.F, s.N, pathKey(info, base)+".mu", true, 0)
+			okL, whyL := le.Require(s.F, s.N, pathKey(info, base)+resolvePath(ix.Pkg, "SimpleProcessor", ".mu"), true, 0)
 			c.Check(okL, "R1", key, ix.at(s), "s.mu held", "SimpleProcessor exports without its mutex: "+whyL)
 			continue
 		}
@@ -108,7 +108,7 @@ func c06(c *Ctx) {
 				kind = "close of"
 			}
 			_, base := fieldOf(info, ch)
-			mu := pathKey(info, base) + ".inputMu"
+			mu := pathKey(info, base) + resolvePath(ix.Pkg, "bufferExporter", ".inputMu")
 			key := "sdk/log|" + s.F.Name + "|" + kind + " input under inputMu"
 			okL, why := le.Require(s.F, s.N, mu, true, 0)
 			c.Check(okL, "R2", key, ix.at(s), "inputMu held", "channel operation on input outside inputMu (send on closed channel panics): "+why)
